@@ -36,8 +36,8 @@ ATTRS = {"Doc": {"author": "hasAuthor", "date": "hasDate", "version": "hasDocVer
                   "uncertainty": "hasUncertainty", "reference": "hasReference", "value_origin": "hasValueOrigin",
                   "id": "hasId"}}
 VAR = {"Doc": "d", "Sec": "s", "Prop": "p"}
-POOL = {"author": ["Ada", "Bob Ray"], "version": ["v1", "2"], "name": ["alpha", "beta", "gamma"],
-        "type": ["rec", "stim/noise"], "definition": ["def one", "other def"], "reference": ["ref1", "ref2"],
+POOL = {"author": ["Ada", "Bob Ray", u"Zo\u00eb \u00c5ngstr\u00f6m"], "version": ["v1", "2"], "name": ["alpha", "beta", "gamma"],
+        "type": ["rec", "stim/noise"], "definition": ["def one", "other def", u"Gr\u00f6\u00dfe \u65e5\u672c"], "reference": ["ref1", "ref2"],
         "unit": ["mV", "s"], "value_origin": ["file.dat", "other.bin"], "uncertainty": [0.5, 2, "3.5", 2.0, 1, 1.0],
         "dtype": ["int", "string", "float"]}
 
@@ -293,10 +293,19 @@ def run_query(ctx, docs, graph, qpairs, mode, form, case, shared=None):
         q_str = "FIND " + " ".join("%s(%s)" % ({"Doc": "doc", "Sec": "sec", "Prop": "prop"}[k], ", ".join(attrs[k]))
                                    for k in korder) + " HAVING " + ", ".join(terms)
         all_pairs = [(k, a, t) for k in ("Doc", "Sec", "Prop") if k in attrs for a in attrs[k] for t in terms]
+    native = {}
+    for k_, m_, _par in objects(docs):
+        for a_ in ATTRS[k_]:
+            v_ = m_.get(a_)
+            if v_ is not None and not isinstance(v_, str):
+                native[(k_, a_, text(v_))] = v_
     rec.monitor("query-builds")
     try:
         with warnings.catch_warnings():
             warnings.simplefilter("ignore")
+            if form == "dict" and mode == "match" and case.get("native_values"):
+                # the dictionary way with the values as the documents hold them (numbers, dates), not their text
+                params = {k: [(a, native.get((k, a, v), v)) for a, v in lst] for k, lst in params.items()}
             if form == "dict":
                 out = FuzzyFinder().find(mode=mode, graph=graph, q_params=params)
             else:
@@ -395,7 +404,8 @@ def run_case(case, ctx):
         else:
             qp = (q["attrs"], q["terms"])
         hit = run_query(ctx, models, graph, qp, mode, form,
-                        dict(case, queries=case["queries"][:qi + 1], kind_order="reversed" if qi % 2 else "canonical"), shared)
+                        dict(case, queries=case["queries"][:qi + 1], kind_order="reversed" if qi % 2 else "canonical",
+                             native_values=qi % 3 == 0), shared)
         rec.case(core.h([[enc(no_ids(s)) for s in specs], q]), bool(hit))
         rec.count("queries", "%s/%s/%s" % (mode, form, "+".join(sorted({p[0] for p in q["pairs"]})) if mode == "match"
                                           else "+".join(sorted(q["attrs"]))))
